@@ -12,7 +12,7 @@ PROPERTY = 'C16'
 META = {
     'level': 'exploration',
     'technique': 'model-based runtime monitor: operation histories applied to the real dotdict and to a nested-dict reference model, full-tree and API-view comparison after every operation',
-    'text': 'Generated histories of set/get/in/del/pop/setdefault/update/iterate/copy by dotted path, attribute and index form run against '
+    'text': 'Back-tracking detours may pop indexed terms behind earlier indexed terms, and an existing level obtained by lookup is assigned again under a second name (the reference tree shares the object). Generated histories of set/get/in/del/pop/setdefault/update/iterate/copy by dotted path, attribute and index form run against '
             'the real dotdict; after every operation the real object is walked with dict-level access and compared with an independent '
             'nested-dict model, and lookup / membership / get / key-item-value iteration / attribute access are cross-checked for every probe path. '
             'All histories of <=2 (quick) or <=3 (thorough) mutators over a small path/value alphabet are enumerated completely; longer seeded histories '
